@@ -94,7 +94,7 @@ func startWatchdog() {
 				time.Sleep(500 * time.Millisecond)
 				runtime.ReadMemStats(&ms)
 				if ms.HeapAlloc>>20 > limit {
-					symex.ResourceExceeded.Store(true)
+					smt.Abort.Store(true)
 				}
 			}
 		}()
@@ -230,6 +230,12 @@ func (s *Session) Prepare(spec HarnessSpec) *Prepared {
 
 func (s *Session) prepare(spec HarnessSpec, res *HarnessResult, prep *Prepared) {
 	res.Spec = spec
+	if smt.Abort.Load() {
+		// the previous harness was given up for memory: its encoding is unreferenced by now
+		runtime.GC()
+		debug.FreeOSMemory()
+		smt.Abort.Store(false)
+	}
 	t0 := time.Now()
 	pkgPath := ModPrefix + "/" + spec.Pkg
 	if spec.Pkg == "" {
@@ -251,6 +257,12 @@ func (s *Session) prepare(spec HarnessSpec, res *HarnessResult, prep *Prepared) 
 	func() {
 		defer func() {
 			if r := recover(); r != nil {
+				if re, ok := r.(smt.ResourceError); ok {
+					res.Error = "unsupported: " + re.Error()
+					prep.ex = nil
+					smt.ResetTable()
+					return
+				}
 				if u, ok := r.(*symex.Unsupported); ok {
 					res.Error = u.Error()
 					if os.Getenv("GOSMT_DEBUG") != "" {
